@@ -17,7 +17,7 @@ TAG = "x12"
 CFG = {
     "quick":    dict(mc=["MC_Connection_q.cfg", "MC_Connection_q2.cfg", "MC_Connection_q3.cfg"],
                      gen=[("Gen_Connection.cfg", False), ("Gen_Connection_b.cfg", False)],
-                     nhist=14, steps=70, nlong=1, longsteps=300, wrap=140, ncycle=6, cycles=14, resample=12),
+                     nhist=14, steps=70, nlong=1, longsteps=300, wrap=140, ncycle=8, cycles=14, resample=12),
     "thorough": dict(mc=["MC_Connection_t.cfg", "MC_Connection.cfg", "MC_Connection_t2.cfg", "MC_Connection_t3.cfg"],
                      gen=[("Gen_Connection_t.cfg", True), ("Gen_Connection_t2.cfg", False), ("Gen_Connection_bt.cfg", False)],
                      nhist=120, steps=120, nlong=6, longsteps=700, wrap=300, ncycle=40, cycles=30, resample=40),
@@ -95,13 +95,13 @@ def run_chunks(exe, behs):
 # ---------------------------------------------------------------------------
 # binding B inputs: call sequences only, no expected values
 # ---------------------------------------------------------------------------
-def cb_arg(rng, st, maxcalls, plain=False):
+def cb_arg(rng, st, maxcalls, plain=False, neg=0.33):
     """Script of the waiting callers / of A's handler for a step in which A receives: what a caller returns, whether it
     issues a follow-up request from inside the callback (tokens cw, cw+1, ..), what A's handler returns."""
     arg = {"cret": 0, "chain": 0, "cw": 0, "hret": 0}
     if plain:
         return arg
-    arg["cret"] = rng.choice([0, 0, 0, -1, -5, 3])
+    arg["cret"] = rng.choice([-1, -5]) if rng.random() < neg else rng.choice([0, 0, 0, 3])
     arg["hret"] = rng.choice([0, 0, -1, -3])
     if st["tok"] < 900 and rng.random() < 0.25:
         arg["chain"] = 1
@@ -209,7 +209,9 @@ def gen_history(rng, steps, tr, width, via, how, await_bias=1):
                 beh.append({"a": "deliver", "arg": arg})
                 nab += 1 if arg["chain"] or nb else 0
         elif op == "stray":
-            beh.append({"a": "stray", "arg": {"of": rng.choice([0] + [rng.randrange(1, st["tok"] + 1)] * 3),
+            beh.append({"a": "stray", "arg": {"of": rng.choice([0, rng.randrange(1, st["tok"] + 1),
+                                                                rng.randrange(max(st["tok"] - 2, 1), st["tok"] + 1),
+                                                                rng.randrange(max(st["tok"] - 2, 1), st["tok"] + 1)]),
                                              "data": [rng.randrange(256) for _ in range(rng.choice([0, 1, 4]))]}})
             nba += 1
         elif op == "drop":
@@ -272,6 +274,7 @@ def gen_cycle_history(rng, cycles, tr, via, how, width):
     nb = 0
     nab = nba = 0
     for _ in range(cycles):
+        first = st["tok"] + 1
         for _ in range(rng.choice([1, 1, 1, 2])):
             st["tok"] += 1
             beh.append({"a": "await", "arg": {"w": st["tok"]}})
@@ -300,7 +303,7 @@ def gen_cycle_history(rng, cycles, tr, via, how, width):
             if not stream:
                 rng.shuffle(ks)
             arg = {"ks": ks}
-            arg.update(cb_arg(rng, st, nba + 3))
+            arg.update(cb_arg(rng, st, nba + 3, neg=0.5))
             beh.append({"a": "sync", "arg": arg})
             if arg["chain"]:
                 nab += nba
@@ -313,10 +316,16 @@ def gen_cycle_history(rng, cycles, tr, via, how, width):
         else:
             while nba:
                 arg = {"dir": "BA", "k": 1 if stream else rng.randrange(1, nba + 1)}
-                arg.update(cb_arg(rng, st, 1))
+                arg.update(cb_arg(rng, st, 1, neg=0.5))
                 beh.append({"a": "deliver", "arg": arg})
                 nba -= 1
                 nab += 1
+        # the network repeats answers: a second frame with the id of a request of this cycle (answered by now,
+        # whatever its caller returned) is on its way and arrives with the traffic of the next cycle
+        for t in range(first, min(st["tok"], first + 1) + 1):
+            if rng.random() < 0.7:
+                beh.append({"a": "stray", "arg": {"of": t, "data": [t % 256, 66]}})
+                nba += 1
         nab = min(nab, 3)
         while nab:                                # answers to B's requests, follow-up requests of A
             beh.append({"a": "deliver", "arg": {"dir": "AB", "k": 1, "act": "reply", "data": [st["tok"] % 256, 8],
